@@ -318,7 +318,11 @@ func (s *storage) bootstrap(config Config) (err error) {
 	if verif {
 		verifPoint("bootstrap.flushed", s.termVal.dir)
 	}
-	s.setTerm(1)
+	if s.term == 0 {
+		// a node may have been asked for its vote by peers that were
+		// bootstrapped earlier: its term and vote stay as they are
+		s.setTerm(1)
+	}
 	s.lastLogIndex, s.lastLogTerm = config.Index, config.Term
 	return nil
 }
